@@ -34,6 +34,7 @@ func get(u string) *hop                { return &hop{K: "get", U: u} }
 func getAt(u string, ms int64) *hop    { return &hop{K: "get", U: u, WaitMs: ms} }
 func del(u string) *hop                { return &hop{K: "del", U: u} }
 func mkdir(u string) *hop              { return &hop{K: "mkdir", U: u} }
+func on(inst int, o *hop) *hop         { o.Inst = inst; return o }
 func put(u, what string, c []byte) *hop {
 	return &hop{K: "put", U: u, What: what, Content: c}
 }
@@ -119,6 +120,35 @@ func (g *gen) corruptions(base, delta *crlObj, r *Rng) []corruption {
 	adds("swap:base-as-delta-too", `{"baseCRL":"`+b64(base.Raw)+`","deltaCRL":"`+b64(base.Raw)+`"}`)
 	adds("dup:base-twice-expired-last", `{"baseCRL":"`+b64(base.Raw)+`","baseCRL":"`+b64(g.c("E1").Raw)+`"}`)
 	adds("dup:base-twice-garbage-first", `{"baseCRL":"AAAA","baseCRL":"`+b64(base.Raw)+`"}`)
+	// duplicate members: the odd one at every position relative to the good one
+	exp, junk := b64(g.c("E1").Raw), "AAAA"
+	good := b64(base.Raw)
+	adds("dup:expired-first", `{"baseCRL":"`+exp+`","baseCRL":"`+good+`"}`)
+	adds("dup:garbage-last", `{"baseCRL":"`+good+`","baseCRL":"`+junk+`"}`)
+	adds("dup:garbage-middle", `{"baseCRL":"`+good+`","baseCRL":"`+junk+`","baseCRL":"`+good+`"}`)
+	adds("dup:null-last", `{"baseCRL":"`+good+`","baseCRL":null}`)
+	adds("dup:case-variant-last", `{"baseCRL":"`+good+`","BaseCrl":"`+exp+`"}`)
+	adds("dup:case-variant-first", `{"BASECRL":"`+exp+`","baseCRL":"`+good+`"}`)
+	adds("dup:delta-twice-expired-last", `{"baseCRL":"`+good+`","deltaCRL":"`+b64(g.c("FD1").Raw)+`","deltaCRL":"`+b64(g.c("ED1").Raw)+`"}`)
+	adds("dup:delta-twice-expired-first", `{"deltaCRL":"`+b64(g.c("ED1").Raw)+`","baseCRL":"`+good+`","deltaCRL":"`+b64(g.c("FD1").Raw)+`"}`)
+	adds("dup:delta-then-null", `{"baseCRL":"`+good+`","deltaCRL":"`+b64(g.c("ED1").Raw)+`","deltaCRL":null}`)
+	adds("key:unknown-first", `{"extra":"`+exp+`","baseCRL":"`+good+`"}`)
+	adds("key:unknown-middle", `{"baseCRL":"`+good+`","extra":[{"baseCRL":"`+exp+`"}],"deltaCRL":"`+b64(g.c("FD1").Raw)+`"}`)
+	adds("key:nested-entry", `{"entry":{"baseCRL":"`+good+`"}}`)
+	// rarely used legal JSON syntax
+	adds("syntax:escaped-key", `{"base\u0043RL":"`+good+`"}`)
+	adds("syntax:escaped-slash", `{"baseCRL":"`+strings.ReplaceAll(good, "/", `\/`)+`"}`)
+	adds("syntax:escaped-plus", `{"baseCRL":"`+strings.ReplaceAll(strings.ReplaceAll(good, "+", `\u002b`), "=", `\u003d`)+`"}`)
+	adds("syntax:crlf-in-base64", `{"baseCRL":"`+good[:20]+`\r\n`+good[20:60]+`\r\n`+good[60:]+`"}`)
+	adds("syntax:space-in-base64", `{"baseCRL":"`+good[:20]+` `+good[20:]+`"}`)
+	adds("syntax:pretty-printed", "{\n\t\"baseCRL\" :\t\""+good+"\" ,\r\n  \"deltaCRL\" : null\n}\n")
+	adds("syntax:kelvin-key", "{\"baseCRL\":\""+exp+"\",\"base\u212aRL\":\"x\"}")
+	adds("syntax:long-s-key", "{\"ba\u017feCRL\":\""+good+"\"}")
+	adds("syntax:base64-array-of-bytes", `{"baseCRL":[48,130,1,2]}`)
+	adds("syntax:base64-object", `{"baseCRL":{"raw":"`+good+`"}}`)
+	adds("syntax:number-exponent", `{"baseCRL":1e3}`)
+	adds("syntax:missing-padding-one", `{"baseCRL":"`+strings.TrimRight(good, "=")+`"}`)
+	adds("syntax:extra-padding", `{"baseCRL":"`+good+`="}`)
 	adds("key:upper", `{"BASECRL":"`+b64(base.Raw)+`"}`)
 	adds("key:unknown-extra", `{"baseCRL":"`+b64(base.Raw)+`","extra":{"a":[1,2,3]}}`)
 	adds("delta:null", `{"baseCRL":"`+b64(base.Raw)+`","deltaCRL":null}`)
@@ -177,7 +207,7 @@ func sortedKeys(m map[string]int) []string {
 // ---------- families ----------
 
 var baseLabels = []string{"F1", "F2", "F3", "E1", "E2", "Z1", "W1", "W2", "N1", ""}
-var deltaLabels = []string{"", "FD1", "FD2", "ED1", "ED2", "ZD1", "W1", "N1", "F2", "E1"}
+var deltaLabels = []string{"", "FD1", "FD2", "ED1", "ED2", "ZD1", "W1", "N1", "N2", "F2", "E1"}
 
 func (g *gen) randURL(r *Rng, pools ...[]string) string {
 	p := Pick(r, pools)
@@ -244,6 +274,11 @@ func (g *gen) families(a *Args, rng *Rng, emit func(*hcase), deferCase func(mk f
 	}
 	for i := 0; i < len(iso); i++ {
 		for j := i + 1; j < len(iso); j++ {
+			if dd := j - i; !thorough && i != 0 && dd != 1 && dd != 2 && dd != 7 {
+				// quick: every url against the plain one, against its neighbours (the
+				// pool lists look-alikes next to each other) and one far partner
+				continue
+			}
 			for s := 0; s < scripts; s++ {
 				r := rng.Fork(uint64(1_000_000 + (i*100+j)*8 + s))
 				x, y := iso[i], iso[j]
@@ -320,6 +355,64 @@ func (g *gen) families(a *Args, rng *Rng, emit func(*hcase), deferCase func(mk f
 		emit(&hcase{Family: "dir", Ops: []*hop{g.set(u, "F1", ""), g.set(v, "F2", ""), mkdir(u), g.set(u, "F3", ""), get(u), get(v)}})
 	}
 
+	// E2. overwrite: the last Set wins, for every ordered pair of stored bundles (same
+	// length, older / newer ThisUpdate and Number, fresh / expired, with / without delta)
+	owB := []string{"F1", "F2", "F3", "E1", "E2", "Z1"}
+	owD := []string{"", "FD1", "ED1", "FD2"}
+	k = 0
+	for _, x := range owB {
+		for _, y := range owB {
+			u := g.near[k%len(g.near)]
+			dx, dy := owD[k%4], owD[(k/4+k+1)%4]
+			k++
+			emit(&hcase{Family: "overwrite", Ops: []*hop{g.set(u, x, dx), get(u), g.set(u, y, dy), get(u), on(1, get(u))}})
+		}
+	}
+	for _, p := range [][4]string{{"F1", "FD1", "F1", "FD2"}, {"F1", "FD1", "F1", ""}, {"F1", "", "F1", "FD1"}, {"F1", "FD1", "F1", "ED1"},
+		{"F1", "ED1", "F1", "FD1"}, {"F1", "FD2", "F3", "FD2"}, {"F1", "FD1", "F1", "N2"}, {"F1", "FD1", "F1", "N1"}, {"F1", "FD1", "F1", "ZD1"}, {"F1", "ZD1", "F1", "FD1"}} {
+		u := g.near[k%len(g.near)]
+		k++
+		emit(&hcase{Family: "overwrite", Ops: []*hop{g.set(u, p[0], p[1]), get(u), g.set(u, p[2], p[3]), get(u), g.set(u, p[0], p[1]), get(u)}})
+	}
+
+	// E2b. entries larger than a read buffer
+	for i, p := range [][2]string{{"B1", ""}, {"B1", "BD1"}, {"F1", "BD1"}, {"B1", "ED1"}} {
+		u, v := g.near[(i*5)%len(g.near)], g.near[(i*5+1)%len(g.near)]
+		emit(&hcase{Family: "large", Ops: []*hop{g.set(u, p[0], p[1]), g.set(v, "F2", ""), get(u), on(1, get(u)), get(v), g.set(u, "F1", "FD1"), get(u)}})
+	}
+
+	// E3. one long-lived object, and two objects on the same root (two processes):
+	// whatever an object remembers between calls must not change an answer
+	instU := []string{u0, g.near[3], g.hostile[0], g.hostile[4], g.long[1], g.near[len(g.near)-1]}
+	for i, u := range instU {
+		v := g.near[(i+9)%len(g.near)]
+		cor := g.corruptions(g.c("F2"), g.c("FD2"), rng.Fork(uint64(2_700_000+i)))
+		bad := cor[(i*7)%len(cor)]
+		for _, ops := range [][]*hop{
+			// A then B
+			{g.set(u, "F1", ""), on(1, get(u)), on(1, g.set(u, "F2", "FD1")), get(u), on(1, get(u))},
+			// miss then hit: another object stores after this one saw nothing
+			{get(u), get(u), on(1, g.set(u, "F1", "")), get(u), on(1, get(u))},
+			// hit then miss: the other object stores an expired bundle / the file is removed
+			{g.set(u, "F1", "FD1"), get(u), on(1, g.set(u, "E1", "")), get(u), on(1, g.set(u, "F3", "")), get(u)},
+			{g.set(u, "F1", ""), get(u), get(u), del(u), get(u), on(1, get(u)), g.set(u, "F2", ""), on(1, get(u))},
+			// delta present then absent then present, across objects and urls
+			{g.set(u, "F1", "FD1"), g.set(v, "F2", ""), get(u), get(v), on(1, get(u)), on(1, get(v)), g.set(u, "F3", ""), get(u), get(v), on(1, g.set(v, "F1", "FD2")), get(v), get(u)},
+			// pass then fail then pass: the file is corrupted and repaired under a live object
+			{g.set(u, "F1", ""), get(u), put(u, bad.what, bad.content), get(u), on(1, get(u)), on(1, g.set(u, "F2", "")), get(u)},
+			// fail then pass
+			{put(u, bad.what, bad.content), get(u), on(1, get(u)), put(u, "valid:entry", canon(g.c("F3").Raw, g.c("FD1").Raw)), get(u), on(1, get(u))},
+			// an entry appears without any Set of either object
+			{get(u), on(1, get(u)), put(u, "valid:entry", canon(g.c("F2").Raw, nil)), get(u), on(1, get(u)), put(u, "valid:expired", canon(g.c("E1").Raw, nil)), get(u)},
+			// a directory comes and goes
+			{get(u), mkdir(u), get(u), on(1, g.set(u, "F1", "")), del(u), get(u), on(1, g.set(u, "F1", "")), get(u)},
+			// errors are not remembered either
+			{g.set(u, "Z1", ""), get(u), g.set(u, "F1", "ZD1"), get(u), on(1, g.set(u, "F1", "")), get(u), setNil(u), get(u)},
+		} {
+			emit(&hcase{Family: "instances", Ops: ops})
+		}
+	}
+
 	// F. random histories
 	nRand := 1100
 	if thorough {
@@ -380,6 +473,12 @@ func (g *gen) families(a *Args, rng *Rng, emit func(*hcase), deferCase func(mk f
 			if !seen[u] {
 				seen[u] = true
 				ops = append(ops, get(u))
+			}
+		}
+		if i%2 == 1 {
+			// every other history is spread over two objects on the same root
+			for _, o := range ops {
+				o.Inst = r.Intn(2)
 			}
 		}
 		emit(&hcase{Family: "random", Ops: ops})
@@ -443,7 +542,7 @@ func (g *gen) account(w *CaseWriter, id int64, term string, hc *hcase) {
 	var key bytes.Buffer
 	key.WriteString(hc.Family)
 	for _, o := range hc.Ops {
-		fmt.Fprintf(&key, "|%s %q %v %s %s %s", o.K, o.U, o.NilB, o.BaseL, o.DeltaL, o.What)
+		fmt.Fprintf(&key, "|%d%s %q %v %s %s %s", o.Inst, o.K, o.U, o.NilB, o.BaseL, o.DeltaL, o.What)
 		if o.K == "put" {
 			fmt.Fprintf(&key, " %x", keyOf(string(o.Content)))
 		}
